@@ -618,6 +618,10 @@ impl<'a> LuaLexer<'a> {
         }
 
         let mut state = NumberState::Int;
+        // hexadecimal digits seen in a hexadecimal mantissa / digits seen in an exponent
+        let mut is_hex = false;
+        let mut mantissa_digits = 0usize;
+        let mut exponent_digits = 0usize;
         let first = self.reader.current_char();
         self.reader.bump();
         match first {
@@ -626,6 +630,7 @@ impl<'a> LuaLexer<'a> {
                     'x' | 'X' => {
                         self.reader.bump();
                         state = NumberState::Hex;
+                        is_hex = true;
                         break;
                     }
                     'b' | 'B' if self.lexer_config.support(LuaFeatures::BinaryInteger) => {
@@ -679,7 +684,10 @@ impl<'a> LuaLexer<'a> {
                     _ => false,
                 },
                 NumberState::Hex => match ch {
-                    '0'..='9' | 'a'..='f' | 'A'..='F' => true,
+                    '0'..='9' | 'a'..='f' | 'A'..='F' => {
+                        mantissa_digits += 1;
+                        true
+                    }
                     '.' => {
                         state = NumberState::HexFloat;
                         true
@@ -694,7 +702,10 @@ impl<'a> LuaLexer<'a> {
                     _ => false,
                 },
                 NumberState::HexFloat => match ch {
-                    '0'..='9' | 'a'..='f' | 'A'..='F' => true,
+                    '0'..='9' | 'a'..='f' | 'A'..='F' => {
+                        mantissa_digits += 1;
+                        true
+                    }
                     _ if matches!(self.reader.current_char(), 'P' | 'p') => {
                         if matches!(self.reader.next_char(), '+' | '-') {
                             self.reader.bump();
@@ -704,7 +715,14 @@ impl<'a> LuaLexer<'a> {
                     }
                     _ => false,
                 },
-                NumberState::WithExpo => ch.is_ascii_digit(),
+                NumberState::WithExpo => {
+                    if ch.is_ascii_digit() {
+                        exponent_digits += 1;
+                        true
+                    } else {
+                        false
+                    }
+                }
                 NumberState::Bin => matches!(ch, '0' | '1'),
             };
 
@@ -713,6 +731,13 @@ impl<'a> LuaLexer<'a> {
             } else {
                 break;
             }
+        }
+
+        // "0x" without any hexadecimal digit, or an exponent marker without any digit
+        if (is_hex && mantissa_digits == 0)
+            || (matches!(state, NumberState::WithExpo) && exponent_digits == 0)
+        {
+            self.error(|| t!("malformed number"));
         }
 
         if self.lexer_config.support(LuaFeatures::ComplexNumber)
